@@ -10,7 +10,8 @@ PROPERTY = "C10"
 RULE = ("identifications over the Annex 10 six-bit alphabet (A-Z=1..26, space=32, 0-9=48..57): every legal code at every one of the 8 positions "
         "with the other 7 random legal (exhaustive 8x37) plus Hypothesis-drawn strings; TC 1-4 x category 0-7 x DF17/18 (callsign, category) and "
         "BDS 2,0 in DF20/21 with random header/address (cs20); oracle: output == input with ' ' -> '_', category == field; independence: "
-        "changing one character changes exactly that output position. non-trivial = string with >= 4 distinct symbols or a space/digit")
+        "changing one character changes exactly that output position. non-trivial = string with >= 4 distinct symbols or a space/digit"
+        ' Also: the keyword form callsign(msg=...), 98 real identification frames (leg corpus), four concurrent callers decoding different identifications (leg threads).')
 ASSUMPTIONS = ["character codes per Annex 10 Vol IV table 3-9 (ref table below, written from the standard)"]
 
 ALPHA = "ABCDEFGHIJKLMNOPQRSTUVWXYZ 0123456789"
